@@ -85,7 +85,7 @@ def pack_families(rng, count, maxn=12, minv=0):
     out = []
     for i in range(count):
         kind = i % 6
-        C = rng.choice([10, 20, 50, 100])
+        C = rng.choice([9, 10, 15, 20, 50, 100])
         n = rng.randint(6, maxn)
         lo = max(minv, 1 if kind else minv)
         if kind == 0:
@@ -119,7 +119,7 @@ def cover_families(rng, count, maxn=12):
     out = []
     for i in range(count):
         kind = i % 5
-        C = rng.choice([10, 12, 30, 60, 100])
+        C = rng.choice([7, 9, 10, 12, 15, 30, 60, 100, 101])      # odd sizes too: the class thresholds C/2, C/3 are then not integers
         n = rng.randint(3, maxn)
         if kind == 0:
             vals = [rng.randint(1, C + 2) for _ in range(n)]
